@@ -46,6 +46,11 @@ pub enum LOp {
     Pin(u16),
     Unpin(u16),
     Touch(u16, u8),
+    /// write an entry that is pinned from the start (what the cached maps do
+    /// for every write of a batch that is not durable yet)
+    UpsertPinned(u16),
+    /// the batch became durable: every pinned key is released
+    UnpinAll,
 }
 
 #[derive(Debug, Clone)]
@@ -69,7 +74,19 @@ impl LPlan {
         for _ in 0..n {
             // skewed popularity: half of the accesses go to the hot eighth
             let k = if t.chance(128) { t.idx(hot) } else { t.idx(universe) } as u16;
-            ops.push(match t.weighted(&[70, 60, 40, 14, 26, 22, 24]) {
+            // a write batch: a run of fresh keys written pinned, released
+            // together later
+            if t.chance(5) {
+                let len = 20 + t.idx(90);
+                let start = t.idx(universe);
+                for j in 0..len {
+                    ops.push(LOp::UpsertPinned(((start + j) % universe) as u16));
+                }
+                continue;
+            }
+            ops.push(match t.weighted(&[70, 60, 40, 14, 26, 22, 24, 18, 8]) {
+                7 => LOp::UpsertPinned(k),
+                8 => LOp::UnpinAll,
                 0 => LOp::Get(k),
                 1 => LOp::InsertIfVacant(k),
                 2 => LOp::Upsert(k),
@@ -161,26 +178,45 @@ pub fn run_plan(plan: &LPlan) -> CaseResult {
                     break;
                 }
             }
-            LOp::InsertIfVacant(k) | LOp::Upsert(k) => {
-                let upsert = matches!(op, LOp::Upsert(_));
+            LOp::UnpinAll => {
+                for (k, m) in &model {
+                    if m.pin.swap(false, Ordering::SeqCst) && plan.strategy == UnpinStrategy::Notify {
+                        cache.unpin(*k);
+                    }
+                }
+                inserts_since_pin_touch.clear();
+            }
+            LOp::InsertIfVacant(k) | LOp::Upsert(k) | LOp::UpsertPinned(k) => {
+                let upsert = !matches!(op, LOp::InsertIfVacant(_));
+                let pinned_write = matches!(op, LOp::UpsertPinned(_));
                 let ver = next_ver;
                 next_ver += 1;
                 let prior_pin = model.get(&k).map(|m| m.pin.clone());
+                let was_pinned = prior_pin.as_ref().is_some_and(|p| p.load(Ordering::SeqCst));
                 let pin = prior_pin.clone().unwrap_or_else(|| Arc::new(AtomicBool::new(false)));
                 // returns (was_occupied, version now stored, pin flag of the
                 // resident entry)
                 let (occupied, stored, flag) = cache.entry(k, |e| match e {
                     Entry::Vacant(v) => {
+                        if pinned_write {
+                            pin.store(true, Ordering::SeqCst);
+                        }
                         v.insert(CVal { ver, pin: pin.clone() });
                         (false, ver, pin.clone())
                     }
                     Entry::Occupied(mut o) => {
+                        if pinned_write {
+                            o.get().pin.store(true, Ordering::SeqCst);
+                        }
                         if upsert {
                             o.get_mut().ver = ver;
                         }
                         (true, o.get().ver, o.get().pin.clone())
                     }
                 });
+                if pinned_write {
+                    inserts_since_pin_touch.insert(k, 0);
+                }
                 if occupied {
                     // the resident entry must be the one the model knows
                     match model.get(&k) {
@@ -201,7 +237,7 @@ pub fn run_plan(plan: &LPlan) -> CaseResult {
                     }
                     model.insert(k, MEntry { ver: stored, pin: flag });
                 } else {
-                    if prior_pin.as_ref().is_some_and(|p| p.load(Ordering::SeqCst)) {
+                    if was_pinned {
                         cr.violation = Some(format!(
                             "op #{step}: key {k} is pinned but entry({k}) found it vacant (evicted)"
                         ));
@@ -277,7 +313,12 @@ pub fn run_plan(plan: &LPlan) -> CaseResult {
         }
         // loose bound at every step (only meaningful without a maintenance
         // thread that may lag behind)
-        if !dedicated && step % 16 == 0 {
+        // Under `Poll` a released pin is only noticed when a maintenance pass
+        // reaches the entry, and a pass stops at the first entry that is still
+        // pinned, so between passes the residents are not bounded by the pins
+        // of any single moment; that strategy is judged at the quiescent
+        // point only.
+        if !dedicated && plan.strategy == UnpinStrategy::Notify && step % 16 == 0 {
             let r = resident(&cache);
             let bound = plan.capacity + 1 + max_pinned + 2 * slack;
             if r > bound {
@@ -313,9 +354,23 @@ pub fn run_plan(plan: &LPlan) -> CaseResult {
         let mut last = usize::MAX;
         let mut stable = 0;
         let start = Instant::now();
-        for _round in 0..(pn + 3).max(4) * 4 {
-            for _ in 0..40 {
+        for _round in 0..(pn + 3).max(4) * 8 {
+            for i in 0..40u16 {
                 let _ = cache.get_map(&scratch, |v| v.ver);
+                // misses leave no trace in the buffers: writes of scratch keys
+                // (outside the counted universe) make the maintenance pass run,
+                // which is also what polls released pins under `Poll`
+                let sk = u16::MAX - 1 - (i % 4);
+                cache.entry(sk, |e| {
+                    if let Entry::Vacant(v) = e {
+                        v.insert(CVal { ver: 0, pin: Arc::new(AtomicBool::new(false)) });
+                    }
+                });
+                cache.entry(sk, |e| {
+                    if let Entry::Occupied(o) = e {
+                        let _ = o.remove();
+                    }
+                });
             }
             if dedicated {
                 std::thread::sleep(Duration::from_micros(300));
@@ -327,23 +382,30 @@ pub fn run_plan(plan: &LPlan) -> CaseResult {
                 stable = 0;
             }
             last = r;
-            if stable >= 2 || start.elapsed() > Duration::from_secs(2) {
+            // under `Poll` one maintenance pass stops at the first entry of
+            // the pinned region that is still pinned: with pn pinned entries
+            // progress may pause for pn passes in a row
+            if stable >= pn + 2 || start.elapsed() > Duration::from_secs(4) {
                 break;
             }
         }
-        let bound = plan.capacity + 1 + pn + slack;
+        let q_slack: usize = std::env::var("VERIF_LFU_QSLACK").ok().and_then(|s| s.parse().ok()).unwrap_or(slack);
+        let bound = plan.capacity + 1 + pn + q_slack;
         // with a dedicated maintenance thread the moment at which the policy
         // has caught up is not observable: the bound is only judged in
         // piggyback mode, where maintenance runs inline and deterministically
+        if std::env::var_os("VERIF_LFU_EXCESS").is_some() && !dedicated && stable >= pn + 2 {
+            eprintln!("EXCESS cap={} pn={} strategy={:?} excess={}", plan.capacity, pn, plan.strategy, last as i64 - plan.capacity as i64 - pn as i64);
+        }
         if dedicated {
             cr.counters.push(("bound_not_judged_dedicated_thread", 1));
-        } else if stable >= 2 && last > bound {
+        } else if stable >= pn + 2 && last > bound {
             cr.violation = Some(format!(
                 "quiescent: {last} resident entries, bound is capacity {} + 1 + pinned {} + slack {}",
                 plan.capacity, pn, slack
             ));
         }
-        if stable < 2 {
+        if stable < pn + 2 {
             cr.counters.push(("quiescent_bound_not_settled", 1));
         }
     }
@@ -467,7 +529,7 @@ pub fn check(tier: Tier) -> Report {
         let tier = if doc["tier"].as_str() == Some("thorough") { Tier::Thorough } else { Tier::Quick };
         run_plan(&LPlan::decode(&mut Tape::new(&bytes), tier))
     });
-    let cases = if tier == Tier::Thorough { 300_000 } else { 5000 };
+    let cases = if tier == Tier::Thorough { 400_000 } else { 50_000 };
     let (stats, failure, _) = drive(seed, cases, 3000, &[], |b| {
         run_plan(&LPlan::decode(&mut Tape::new(b), tier))
     });
@@ -481,7 +543,7 @@ pub fn check(tier: Tier) -> Report {
     }
     #[cfg(feature = "hooks")]
     {
-        let runs = if tier == Tier::Thorough { 2000 } else { 100 };
+        let runs = if tier == Tier::Thorough { 2000 } else { 300 };
         SHARDS_OVERRIDE.with(|s| s.set(Some(2)));
         let (stats, failure, _) = drive_opts(seed ^ 0x10c, runs, 64, &[], 30, 60, lock_run);
         SHARDS_OVERRIDE.with(|s| s.set(None));
